@@ -170,6 +170,52 @@ pub fn run_c19tool(ctx: &mut Ctx, from: u64, to: u64) {
             );
             continue;
         }
+        // both options in one invocation: the old dictionary is dumped AND the new one is installed
+        {
+            let mut newd = case.model.dict_model.clone();
+            for d in newd.iter_mut() {
+                d.weights[0] = d.weights[0].wrapping_add(1).clamp(-100_000, 100_000);
+            }
+            newd.push(mirror::WordWeightRecord { word: "追加語".into(), weights: vec![1, 2, 3, 4], comment: "added".into() });
+            let q = |s: &str| format!("\"{}\"", s.replace('"', "\"\""));
+            let mut new_csv = String::from("word,weights,comment\n");
+            for d in &newd {
+                let ws: Vec<String> = d.weights.iter().map(|w| w.to_string()).collect();
+                new_csv.push_str(&format!("{},{},{}\n", q(&d.word), q(&ws.join(" ")), q(&d.comment)));
+            }
+            let csv_new = scratch(ctx, "new.csv");
+            let csv_dump2 = scratch(ctx, "dump2.csv");
+            let m_out2 = scratch(ctx, "out2.zst");
+            std::fs::write(&csv_new, &new_csv).unwrap();
+            let _ = std::fs::remove_file(&csv_dump2);
+            let _ = std::fs::remove_file(&m_out2);
+            let r4 = run_bin(
+                ctx,
+                "manipulate_model",
+                &["--model-in".into(), m_in.clone(), "--dump-dict".into(), csv_dump2.clone(), "--replace-dict".into(), csv_new.clone(), "--model-out".into(), m_out2.clone()],
+                b"",
+            )
+            .unwrap();
+            ctx.eval(1);
+            ctx.count("runs_with_dump_and_replace_together", 1);
+            if r4.code != Some(0) {
+                ctx.violation(if r4.crashed() { "C19:dump_and_replace_together_crashed" } else { "C19:dump_and_replace_together_failed" }, detail(vec![("run", J::s(r4.describe())), ("new_csv", J::s(clip(&new_csv, 600)))]));
+                continue;
+            }
+            let dump2 = std::fs::read(&csv_dump2).unwrap_or_default();
+            let back2 = std::fs::read(&m_out2).ok().and_then(|z| zstd::decode_all(&z[..]).ok()).unwrap_or_default();
+            let mut want = case.model.clone();
+            want.dict_model = newd;
+            if dump2 != csv_text {
+                ctx.violation("C19:dump_differs_when_replace_is_given_too", detail(vec![("dump_alone", J::s(clip(&String::from_utf8_lossy(&csv_text), 400))), ("dump_with_replace", J::s(clip(&String::from_utf8_lossy(&dump2), 400)))]));
+                continue;
+            }
+            if back2 != want.to_bytes() {
+                let got = ModelData::from_bytes(&back2).map(|m| format!("{:?}", m.0.dict_model)).unwrap_or_else(|e| e);
+                ctx.violation("C19:replace_ignored_or_wrong_when_dump_is_given_too", detail(vec![("new_csv", J::s(clip(&new_csv, 600))), ("dictionary_after", J::s(clip(&got, 800)))]));
+                continue;
+            }
+        }
         // corrupted CSV: one weight removed / added in one row => rejected, no crash
         if !case.model.dict_model.is_empty() {
             let i = rng.below(case.model.dict_model.len());
@@ -503,6 +549,17 @@ pub fn run_c20e(ctx: &mut Ctx, from: u64, to: u64) {
                 }
             }
             refs.push(fmt::RefSentence { chars, labels, tags });
+        }
+        // the same sentence again in its normalised (full-width) spelling: same labels and tags
+        if class != 2 && rng.chance(1, 2) {
+            let extra: Vec<fmt::RefSentence> = refs
+                .iter()
+                .filter(|r| r.chars.iter().any(|&c| norm::normalise_char(c) != c))
+                .take(2)
+                .map(|r| fmt::RefSentence { chars: r.chars.iter().map(|&c| norm::normalise_char(c)).collect(), labels: r.labels.clone(), tags: r.tags.clone() })
+                .collect();
+            ctx.count("references_repeated_as_width_variant", extra.len() as u64);
+            refs.extend(extra);
         }
         let mut input = String::new();
         for r in &refs {
